@@ -522,11 +522,20 @@ def mkRange (env : Env) (c : Consts) (h : HP) : Except Err Range :=
   | some a => if subSpaceOk a h.dom then mkRangeCore env c h else .error .assertion
   | none => mkRangeCore env c h
 
+/-- `sorted(keys)` on (distinct) strings, as an insertion sort -/
+def insertStr (a : String) : List String → List String
+  | [] => [a]
+  | b :: bs => if a ≤ b then a :: b :: bs else b :: insertStr a bs
+
+def sortStrs : List String → List String
+  | [] => []
+  | a :: as => insertStr a (sortStrs as)
+
 /-- `_set_internal_keys`: sorted names, `prefix_keys` first, `name_last_pos` moved to the end.
-`none` = one of the two assertions fails -/
+An error = one of the two assertions fails -/
 def internalKeys (names : List String) (prefixKeys : Option (List String))
     (nameLast : Option String) : Except Err (List String) :=
-  let sorted := names.mergeSort (fun a b => decide (a ≤ b))
+  let sorted := sortStrs names
   let k1 : Except Err (List String) := match prefixKeys with
     | none => .ok sorted
     | some pk =>
